@@ -5,7 +5,8 @@ effects outside the process memory it may reach (ext), what its returned pointer
 (ret) and which pointer values it may store where (pst, for aliasing rules).
 
 Abstract roots (tuples):
-   ('arg', k, path)     memory reachable from parameter k; path = up to 2 field names below it
+   ('arg', k, path)     memory reachable from parameter k; path = up to 3 steps below it: field names, and '*' for
+                        "through the pointer stored in that field" (so ('levels',) is the field, ('levels','*') its pointee)
    ('glob', name, path) a global variable / memory reachable from it
    ('static', name, ()) a function-local static (name = func.var)
    ('local', did, ())   stack memory of a local of the current activation   (never exported)
@@ -84,7 +85,7 @@ EXT["syscall"] = ((1, 2, 3, 4, 5), (), True, None)
 
 def compose(root, path):
     if len(root) == 3 and root[0] in ("arg", "glob"):
-        return (root[0], root[1], (root[2] + path)[:2])
+        return (root[0], root[1], (root[2] + path)[:3])
     return root
 
 
@@ -105,8 +106,9 @@ class Summary(object):
 
 
 class Effects(object):
-    def __init__(self, program, user_slots=()):
+    def __init__(self, program, user_slots=(), opaque=()):
         self.P = program
+        self.opaque = set(opaque)     # functions assumed effect-free (e.g. lazy cache refreshers under an "already refreshed" precondition)
         self.funcs = {}
         for f in program.all_funcs(only_main=False):
             self.funcs.setdefault(f.name, f)
@@ -236,7 +238,8 @@ class Effects(object):
                     out |= vr.get(r[1], set())
                     out.add(r)
                 else:
-                    out.add(r)
+                    # '*' marks "through a pointer stored there" (as opposed to the field itself)
+                    out.add(compose(r, ("*",)) if (len(r) == 3 and r[0] in ("arg", "glob") and (not r[2] or r[2][-1] != "*")) else r)
             return out
         if k == "Unary":
             if n["op"] == "&":
@@ -379,6 +382,9 @@ class Effects(object):
     # ------------------------------------------------------------------ solving
     def analyse(self, f):
         S = Summary()
+        if f.name in self.opaque:
+            self._vroots.setdefault(f.name, self.var_root_init(f))
+            return S
         vr = self.var_root_init(f)
         ev = self.events(f)
         loc = f.loc
@@ -579,6 +585,8 @@ class Effects(object):
             self.analyse(f)
             vr = self._vroots[f.name]
         S = Summary()
+        if f.name in self.opaque:
+            return S
         if n["k"] == "Call":
             self.call_effects(f, n, vr, S)
             return S
